@@ -29,6 +29,23 @@ def _qs(x):
     return "%d/%d" % (x.numerator, x.denominator)
 
 
+def make_prof(case, inst, projs, ballots, mults, vperm=None):
+    """the profile object: a list Profile (optionally converted) or, when multiplicities are given, an
+    approval MultiProfile filled directly with the counts (city-sized electorates)"""
+    from vharness import pb
+
+    if vperm is None:
+        vperm = list(range(len(ballots)))
+    if mults is None:
+        return pb.make_profile(case["btype"], inst, projs, [ballots[v] for v in vperm], case.get("multi", False))
+    from pabutools.election import ApprovalMultiProfile, FrozenApprovalBallot
+
+    prof = ApprovalMultiProfile(instance=inst)
+    for v in vperm:
+        prof[FrozenApprovalBallot([projs[i] for i in ballots[v]])] = int(mults[v])
+    return prof
+
+
 def build(case, pres):
     """the election of the case as presented by `pres`"""
     from vharness import pb
@@ -37,9 +54,48 @@ def build(case, pres):
     costs = [Fraction(c) * k for c in case["costs"]]
     budget = Fraction(case["budget"]) * k
     inst, projs = pb.make_instance(costs, budget, pres["order"])
-    ballots = [case["ballots"][v] for v in pres["vperm"]]
-    prof = pb.make_profile(case["btype"], inst, projs, ballots, case.get("multi", False))
+    prof = make_prof(case, inst, projs, case["ballots"], case.get("mults"), pres["vperm"])
     return inst, projs, prof, k
+
+
+def replay_history(case, pres, inst, projs, prof):
+    """what happened in this process BEFORE the election is evaluated (presentation kind 5): other elections on
+    the same Instance object / the same profile object with another Instance / the same Project objects with
+    other costs, run through the same calls (hence through the same module-level tie-breaking singletons).
+    Their results are irrelevant; the election under test is evaluated afterwards on the very same objects."""
+    from pabutools.election import Instance
+    from vharness import pb
+
+    h = pres["hist"]
+    sink = {}
+    if h["mode"] == "inst":
+        for eb in h["earlier"]:
+            prof_e = make_prof(case, inst, projs, eb, None)
+            for call in case["calls"]:
+                run_call(call, inst, projs, prof_e, Fraction(1), sink)
+                sink.clear()
+    elif h["mode"] == "prof":
+        inst2 = Instance()
+        for p in projs:
+            inst2.add(p)
+        inst2.budget_limit = pb.num(h["budget2"])
+        for call in case["calls"]:
+            run_call(call, inst2, projs, prof, Fraction(1), sink)
+            sink.clear()
+    elif h["mode"] == "cost":
+        old = [p.cost for p in projs]
+        for p, c in zip(projs, h["costs2"]):
+            p.cost = pb.num(c)
+        try:
+            prof_e = make_prof(case, inst, projs, h["earlier"][0], None)
+            for call in case["calls"]:
+                run_call(call, inst, projs, prof_e, Fraction(1), sink)
+                sink.clear()
+        finally:
+            for p, c in zip(projs, old):
+                p.cost = c
+    else:
+        raise ValueError(h["mode"])
 
 
 def run_call(call, inst, projs, prof, k, sat_cache):
@@ -91,6 +147,8 @@ def run_case(case):
         inst, projs, prof, k = build(case, pres)
         if j == 0:
             enum0 = [pb.rank(p) for p in inst]
+        if pres.get("hist"):
+            replay_history(case, pres, inst, projs, prof)
         sat_cache = {}
         for ci, call in enumerate(case["calls"]):
             a = run_call(call, inst, projs, prof, k, sat_cache)
